@@ -85,8 +85,9 @@ def gen(c, n, A, cmode, amode):
             avail = {(i, a) for i in range(n) for a in range(A) if not lab[i, a]}
         else:
             avail = {(i, a) for i in rows for a in range(A)}
-    elif amode == "idx":
-        sub = [a for a in range(A) if c.choose([(1, True), (0, True)], f"annot[{a}]")]
+    elif amode in ("idx", "idx_all"):
+        # ("idx_all": the index list names every annotator - one path instead of all subsets)
+        sub = list(range(A)) if amode == "idx_all" else [a for a in range(A) if c.choose([(1, True), (0, True)], f"annot[{a}]")]
         if not sub:
             raise core.PathAbort("no annotator")
         s.annot = list(reversed(sub))
@@ -132,7 +133,7 @@ def real_gen(inputs, n, A, cmode, amode):
         s.annot = None
         avail = {(i, a) for i in range(n) for a in range(A) if not lab[i, a]} if cmode == "none" else \
             {(i, a) for i in rows for a in range(A)}
-    elif amode == "idx":
+    elif amode in ("idx", "idx_all"):
         s.annot = [int(a) for a in inputs["annot"]]
         avail = {(i, a) for i in rows for a in set(s.annot)}
     else:
@@ -252,8 +253,9 @@ def _saw(env, s, b, napp, perf, table=None, timeout=2, enc="float", inner_kind="
     n_cand_samples = len({j for (j, a) in s.avail})
     enough = sum(req(k) for k in range(n_cand_samples)) >= len(pairs)
     if enough and all(navail[i] >= req(k) for k, i in enumerate(order)):
-        env.prove(all(per[i] == req(k) for k, i in enumerate(order[:-1])), "annotators_per_sample_respected",
-                  info=dict(pairs=pairs, requested=napp))
+        # (the last sample of the batch may be cut short by the batch size - but never gets more than requested)
+        env.prove(all(per[i] == req(k) for k, i in enumerate(order[:-1])) and per[order[-1]] <= req(len(order) - 1),
+                  "annotators_per_sample_respected", info=dict(pairs=pairs, requested=napp))
     return pairs
 
 
@@ -366,11 +368,15 @@ def _cfg_saw(tier):
     # larger than n_annotators * len(annotators) with annotator indices (n_samples != n_annotators)
     out.append(dict(n=3, A=2, cmode="none", amode="none", b=5, napp=[2, 1], perf=None))
     out.append(dict(n=3, A=2, cmode="none", amode="idx", b=4, napp=1, perf=None))
+
     # a wrapped strategy without classifier arguments (RandomSampling)
     for cmode, amode in ((("none", "none"), ("idx", "idx")) if tier == "quick" else
                          [(c, a) for c in ("none", "idx", "rows") for a in ("none", "idx", "matrix")]):
         out.append(dict(n=2, A=2, cmode=cmode, amode=amode, b=2, napp=1, perf=None, inner="random"))
     if tier == "thorough":
+        # four samples: an array-valued request [2, 1] stands for [2, 1, 1, 1], not for a cyclic [2, 1, 2, 1] (seed C07-r3a;
+        # about 3000 paths - beyond the quick budget)
+        out.append(dict(n=4, A=2, cmode="none", amode="idx_all", b=5, napp=[2, 1], perf=None, inner="random"))
         for cmode in ("none", "idx"):
             for amode in ("none", "matrix"):
                 if (cmode, amode) == ("idx", "matrix"):
